@@ -199,6 +199,8 @@ INVARIANT DirectoryTrueInOrder
 INVARIANT ConvergedIfNeverDropped
 INVARIANT SubscribedAtDirectory
 INVARIANT ViewsNameRealHosts
+INVARIANT ReplicaConvergedIfStable
+INVARIANT DirectoryRepTrueIfStable
 VIEW View
 ACTION_CONSTRAINT Edge
 """
@@ -216,6 +218,11 @@ def proto_project(w, nops, comps):
             t = m.msg.type
             if t == "subscribe_computation":
                 out.append({"t": "sub", "c": m.msg.computation, "a": "on" if m.msg.subscribe else "off"})
+            elif t == "subscribe_replica":
+                out.append({"t": "rsub", "c": m.msg.replica, "a": "on" if m.msg.subscribe else "off"})
+            elif t == "publish_replica":
+                out.append({"t": ("repAdded" if m.msg.publish else "repRemoved") if down else ("repOn" if m.msg.publish else "repOff"),
+                            "c": m.msg.replica, "a": m.msg.agent})
             elif t in _KIND:
                 out.append({"t": _KIND[t][1 if down else 0], "c": m.msg.computation, "a": m.msg.agent})
             else:
@@ -223,7 +230,12 @@ def proto_project(w, nops, comps):
         return out
     disc = {a: w.w.agents[a].discovery for a in w.AG}
     cbs = {a: {c: list(dict.get(disc[a]._computation_cbs, c, ())) for c in comps} for a in w.AG}
-    return {"vHost": {a: {c: disc[a]._computations_data.get(c, "") for c in comps} for a in w.AG},
+    rcbs = {a: {c: list(dict.get(disc[a]._replicas_cbs, c, ())) for c in comps} for a in w.AG}
+    return {"vRep": {a: {c: sorted(dict.get(disc[a]._replicas_data, c, ())) for c in comps} for a in w.AG},
+            "rkey": {a: {c: dict.__contains__(disc[a]._replicas_cbs, c) for c in comps} for a in w.AG},
+            "rpcb": {a: {c: len(rcbs[a][c]) for c in comps} for a in w.AG},
+            "dRep": {c: sorted(dict.get(dd.discovery._replicas_data, c, ())) for c in comps},
+            "dSubR": {c: sorted(x.replace("_discovery_", "") for x in dict.get(dd._subscription_replicas, c, ())) for c in comps},"vHost": {a: {c: disc[a]._computations_data.get(c, "") for c in comps} for a in w.AG},
             "key": {a: {c: dict.__contains__(disc[a]._computation_cbs, c) for c in comps} for a in w.AG},
             "pcb": {a: {c: sum(1 for _, one in cbs[a][c] if not one) for c in comps} for a in w.AG},
             "ocb": {a: {c: sum(1 for _, one in cbs[a][c] if one) for c in comps} for a in w.AG},
@@ -244,18 +256,21 @@ def protocol_part(v, quick, hist):
     to show a violation there too (otherwise the model is wrong), and it has to be a known finding (otherwise it is reported)"""
     from .. import replay as RP
     tot = {"edges": 0, "paths": 0, "steps": 0, "configs": []}
-    configs = [({"c1"}, 4)] if quick else [({"c1"}, 6), ({"c1", "c2"}, 4)]
-    for comps, maxops in configs:
-        consts = dict(Agents=set(AGENTS), Comps=comps, MaxOps=maxops)
+    # (replicas: 12 kinds of API calls instead of 7; the computation part alone goes one call deeper)
+    configs = [({"c1"}, 3, True), ({"c1"}, 4, False)] if quick else [({"c1"}, 5, True), ({"c1"}, 6, False), ({"c1", "c2"}, 4, False), ({"c1", "c2"}, 3, True)]
+    order = "@<<" + ", ".join('"%s"' % a for a in list(set(AGENTS))) + ">>"     # the interpreter's iteration order of a set of agents
+    for comps, maxops, withrep in configs:
+        consts = dict(Agents=set(AGENTS), Comps=comps, MaxOps=maxops, WithReplicas=withrep, AgentOrder=order)
         g, res = RP.dump_edges("DiscoveryProtocol", PROTO_CFG, consts=consts, heap="6g")
         if res.violated or res.errors:
             raise MachineryError("DiscoveryProtocol.tla: %s %s" % (res.violated, res.errors[:2]))
-        v.add_tlc(res, "exhaustive model checking of DiscoveryProtocol.tla (%d computation(s), at most %d API calls, all deliveries) + labelled edge dump" % (len(comps), maxops))
+        v.add_tlc(res, "exhaustive model checking of DiscoveryProtocol.tla (%d computation(s), at most %d API calls%s, all deliveries) + labelled edge dump" % (
+            len(comps), maxops, ", replicas included" if withrep else ""))
         cl = sorted(comps)
         init = proto_project(World(0), 0, cl)
         paths = g.cover(init, max_len=40)
         tot["edges"] += g.nedges
-        tot["configs"].append({"computations": len(comps), "max_api_calls": maxops, "states": res.distinct, "edges": g.nedges, "paths": len(paths)})
+        tot["configs"].append({"computations": len(comps), "max_api_calls": maxops, "replicas": withrep, "states": res.distinct, "edges": g.nedges, "paths": len(paths)})
         for pi, path in enumerate(paths):
             w = World(0)
             nops = 0
@@ -265,7 +280,8 @@ def protocol_part(v, quick, hist):
                     nops += 1
                 tot["steps"] += 1
                 got = proto_project(w, nops, cl)
-                exp = dict(exp, dSub={c: sorted(x) for c, x in exp["dSub"].items()})
+                exp = dict(exp, **{f: {c: sorted(x) for c, x in exp[f].items()} for f in ("dSub", "dSubR", "dRep")})
+                exp["vRep"] = {a_: {c: sorted(x) for c, x in m_.items()} for a_, m_ in exp["vRep"].items()}
                 diff = RP.first_diff(got, exp)
                 if diff:
                     v.divergence("DiscoveryProtocol path %d step %d (%s): real objects differ from the model at %s" % (pi, k, a, diff))
@@ -275,11 +291,12 @@ def protocol_part(v, quick, hist):
         tot["paths"] += len(paths)
     # the statement, unrestricted
     cex = []
-    for inv in ("Converged", "DirectoryTrue"):
-        res = tlc.run("DiscoveryProtocol", PROTO_CEX_CFG % inv, consts=dict(Agents=set(AGENTS), Comps={"c1"}, MaxOps=4), workers=1)
+    for inv in ("Converged", "DirectoryTrue", "ReplicaConverged", "DirectoryRepTrue"):
+        res = tlc.run("DiscoveryProtocol", PROTO_CEX_CFG % inv, consts=dict(Agents=set(AGENTS), Comps={"c1"}, MaxOps=5, WithReplicas=inv.find("Rep") >= 0,
+                                                                            AgentOrder=order), workers=1)
         acts = [st["act"] for st in (res.trace_json or [])[1:] if isinstance(st.get("act"), dict)]
         if not res.violated:
-            v.notes.append("DiscoveryProtocol.tla no longer violates %s within 4 API calls" % inv)
+            v.notes.append("DiscoveryProtocol.tla no longer violates %s within 5 API calls" % inv)
             continue
         if not acts:
             raise MachineryError("DiscoveryProtocol.tla violates %s and TLC gave no counterexample" % inv)
@@ -290,14 +307,16 @@ def protocol_part(v, quick, hist):
         # the real objects end where the model's counterexample ends
         last = res.trace_json[-1]
         got = proto_project(w, 0, ["c1"])
-        for f in ("vHost", "dHost"):
+        last = dict(last, dRep={c: sorted(x) for c, x in last["dRep"].items()}, vRep={a_: {c: sorted(x) for c, x in m_.items()} for a_, m_ in last["vRep"].items()})
+        for f in ("vHost", "dHost", "vRep", "dRep"):
             if got[f] != last[f]:
-                raise MachineryError("DiscoveryProtocol.tla violates %s; the real objects, driven along TLC's counterexample %s, end with %s = %s "
-                                     "where the model has %s: the model is wrong" % (inv, script, f, got[f], last[f]))
-        if inv == "Converged":          # (DirectoryTrue is not part of the statement: it is the root cause of one of the findings)
+                # (on the unchanged tree this means the model is wrong; on a changed tree, that the code left the model)
+                v.divergence("DiscoveryProtocol.tla violates %s; the real objects, driven along TLC's counterexample, end with %s = %s where "
+                             "the model has %s" % (inv, f, got[f], last[f]))
+        if inv in ("Converged", "ReplicaConverged"):          # (the Directory... ones are not part of the statement: they are root causes of findings)
             cex.append((h["id"], inv, script))
         v.cov.setdefault("statement_counterexamples_reproduced_on_the_real_objects", []).append(
-            {"invariant": inv, "script": ["%s(%s,%s)" % (o["k"], o["a"], o["c"]) for o in script], "real_final": {f: got[f] for f in ("vHost", "dHost")}})
+            {"invariant": inv, "script": ["%s(%s,%s)" % (o["k"], o["a"], o["c"]) for o in script], "real_final": {f: got[f] for f in ("vHost", "dHost", "vRep", "dRep")}})
     v.cov["discovery_protocol_model"] = tot
     v.cov["replayed_paths"] = tot["paths"]
     v.cov["replayed_steps"] = tot["steps"]
@@ -330,17 +349,17 @@ def run(tier):
     n3 = len(cases3)
     cases3 = [c for c in cases3 if {"rep", "rsub"} <= {o["k"] for o in c["ops"]}]
     v.cov["three_agent_histories"] = {"generated": n3, "with_replica_and_subscription": len(cases3)}
-    if quick and len(cases3) > 5000:
+    if quick and len(cases3) > 4000:
         random.Random(seed() + 2021).shuffle(cases3)
-        cases3 = cases3[:5000]
+        cases3 = cases3[:4000]
     for c3 in cases3:
         c3["agents"] = ["a1", "a2", "a3"]
     v.cov["histories_generated"] = {"with_deliveries": len(cases), "one_computation": len(cases1), "agent_operations": len(casesA), "three_agents": len(cases3)}
     sampled = False
-    if quick and len(casesA) > 6000:
+    if quick and len(casesA) > 4000:
         # (the quick tier executes a seeded sample of the agent-operation histories)
         random.Random(seed() + 2020).shuffle(casesA)
-        casesA, sampled = casesA[:6000], True
+        casesA, sampled = casesA[:4000], True
     cases = cases + cases1 + casesA + cases3
     consts = dict(consts, WithAgentOps=True)
     sim = tlc.run("Gen_C20", GEN_CFG, consts=dict(consts, MaxLen=10, Exhaustive=False, WithDeliveries=True), workers=1, simulate=400 if quick else 6000, depth=11,
@@ -361,8 +380,8 @@ def run(tier):
     v.add_tlc(jres, "convergence judged on %d executed histories (Judge_C20 / Discovery.tla)" % len(hist))
     for hid, inv, script in cex:
         if not verdicts[hid]:
-            raise MachineryError("DiscoveryProtocol.tla violates %s but the real objects, driven along TLC's counterexample %s, "
-                                 "converge: the model is wrong" % (inv, script))
+            v.divergence("DiscoveryProtocol.tla violates %s but the real objects, driven along TLC's counterexample %s, converge: "
+                         "the model and the code differ" % (inv, script))
     refused = collections.Counter()
     for h in hist:
         v.cov["evaluations"] += 1
